@@ -126,16 +126,16 @@ def check_magnetic(seeds=(0,)):
             cases += 1
             hf = fields.get_magnetic_field(m, e)
             results.append(hf)
-            # Faraday:  H = -curl E / (s mu0 mu_r), mu_r averaged (volume weighted) over the two cells of a face
+            # discrete Faraday law in the sign convention of emg3d:  H = curl E / (s mu0 mu_r), mu_r averaged (volume weighted) over the two cells of a face
             hx, hy, hz = grid.h
             ex, ey, ez = e.fx, e.fy, e.fz
             zeta = (hx[:, None, None] * hy[None, :, None] * hz[None, None, :]) / (1.0 if m.mu_r is None else m.mu_r) / e.smu0
             Cx = np.diff(ez, axis=1) / hy[None, :, None] - np.diff(ey, axis=2) / hz[None, None, :]
             want = Cx[1:-1] * (zeta[:-1] + zeta[1:]) / ((hx[:-1] + hx[1:])[:, None, None] * hy[None, :, None] * hz[None, None, :])
             got = hf.fx[1:-1]
-            if np.abs(got + want).max() > 1e-10 * np.abs(want).max() and np.abs(got - want).max() > 1e-10 * np.abs(want).max():
+            if np.abs(got - want).max() > 1e-10 * np.abs(want).max():
                 return dict(reproduced=True, cases=cases, clause='magnetic field == volume-weighted discrete Faraday law', seed=seed,
-                            rel=float(min(np.abs(got + want).max(), np.abs(got - want).max()) / np.abs(want).max()),
+                            rel=float(np.abs(got - want).max() / np.abs(want).max()),
                             how='contracts.c0910_concrete.check_magnetic (sequence of models on one grid)')
         if not np.array_equal(grid.cell_volumes, vol0):
             return dict(reproduced=True, cases=cases, clause='get_magnetic_field must not modify the grid (cached cell volumes changed)')
@@ -362,4 +362,39 @@ def check_source_get_field(seed=0):
                     return dict(reproduced=True, cases=cases, clause='field of Tx.get_field does not carry the nominal moment times strength times -s mu0',
                                 source=name, call_number=step + 1, frequency=freq, sums=np.real(sums).tolist(), nominal=np.asarray(nominal).tolist(),
                                 how='contracts.c0910_concrete.check_source_get_field')
+    return dict(reproduced=False, cases=cases)
+
+
+def check_magnetic_transpose(seeds=(0,)):
+    """magnetic point receiver (get_magnetic_field + linear get_receiver) == inner product of the electric field with the unit magnetic
+    point-source vector of the same position and orientation, _point_vector_magnetic(grid, c, frequency), and with the source field of a
+    TxMagneticPoint divided by strength * (-s mu0): frequency and Laplace domain, complex and real fields, several conductivity models"""
+    import emg3d
+    from emg3d import fields
+    cases = 0
+    for seed in seeds:
+        grid, rng = mk_grid(seed)
+        shape = grid.shape_cells
+        nodes = (grid.nodes_x, grid.nodes_y, grid.nodes_z)
+        for freq in (1.3, -2.0, 0.05, -0.4):
+            e0 = rand_field(grid, rng, freq > 0)
+            e = emg3d.Field(grid, e0.field if freq > 0 else np.ascontiguousarray(e0.field.real), frequency=freq)
+            for model in (emg3d.Model(grid, 1.0), emg3d.Model(grid, rng.uniform(0.5, 2, shape)), emg3d.Model(grid, rng.uniform(0.01, 100, shape), mapping='Resistivity')):
+                h = fields.get_magnetic_field(model, e)
+                for k in range(4):
+                    cases += 1
+                    p = [rng.uniform(v[2], v[-3]) for v in nodes]
+                    az, el = [(0.0, 0.0), (90.0, 0.0), (0.0, 90.0), (float(rng.uniform(-180, 180)), float(rng.uniform(-90, 90)))][k]
+                    c = (p[0], p[1], p[2], az, el)
+                    r = complex(fields.get_receiver(h, c, method='linear'))
+                    v = fields._point_vector_magnetic(grid, c, freq)
+                    ip = complex(np.sum(e.field * v.field))
+                    sf = fields.get_source_field(grid, emg3d.TxMagneticPoint(c, strength=2.5), freq)
+                    ip2 = complex(np.sum(e.field * sf.field) / (2.5 * -sf.smu0))
+                    scale = max(abs(r), np.abs(e.field).max() * np.abs(v.field).max())
+                    if abs(r - ip) > 1e-9 * scale or abs(r - ip2) > 1e-9 * scale:
+                        return dict(reproduced=True, cases=cases, clause='magnetic receiver (discrete Faraday + linear interpolation) == inner product of the field with the unit magnetic point-source vector',
+                                    frequency=freq, position=p, azimuth=az, elevation=el, sampled=str(r), inner_product_with_point_vector=str(ip),
+                                    inner_product_with_source_field_over_strength_and_minus_smu0=str(ip2), seed=seed,
+                                    how='contracts.c0910_concrete.check_magnetic_transpose')
     return dict(reproduced=False, cases=cases)
